@@ -38,8 +38,14 @@ func (r *abort1) StoreBroadcastMessage(msg round.Message) error {
 		return round.ErrInvalidContent
 	}
 
+	if body.GammaShare == nil || body.KProof == nil || body.KProof.Plaintext == nil {
+		return round.ErrNilFields
+	}
 	alphas := make(map[party.ID]*saferith.Int, len(body.DeltaProofs))
 	for id, deltaProof := range body.DeltaProofs {
+		if deltaProof == nil || deltaProof.Plaintext == nil {
+			return round.ErrNilFields
+		}
 		alphas[id] = deltaProof.Plaintext
 	}
 	r.DeltaAlphas[from] = alphas
@@ -137,7 +143,7 @@ func proveNth(hash *hash.Hash, paillierSecret *paillier.SecretKey, c *paillier.C
 }
 
 func (msg *abortNth) Verify(hash *hash.Hash, paillierPublic *paillier.PublicKey, c *paillier.Ciphertext) bool {
-	if msg == nil || !arith.IsValidNatModN(paillierPublic.ModulusSquared().Modulus, msg.Nonce) || msg.Plaintext == nil {
+	if msg == nil || c == nil || !arith.IsValidNatModN(paillierPublic.ModulusSquared().Modulus, msg.Nonce) || msg.Plaintext == nil {
 		return false
 	}
 	one := new(saferith.Nat).SetUint64(1)
